@@ -312,6 +312,32 @@ func c14Copies(c *Ctx, a *sketchAnchors) {
 				}
 			}
 		}
+		// map-typed fields: the copy holds the receiver's entries verbatim — written by a map update whose key and value are
+		// those of one range step over the receiver's map. Filling the copy through an adding entry point (MergeWith,
+		// AddWithCount) filters entries (zero weights) that the original still reports through MinIndex/MaxIndex/IsEmpty.
+		for _, fld := range fields {
+			if _, isMap := fld.typ.Underlying().(*types.Map); !isMap {
+				continue
+			}
+			verbatim := false
+			tcm := newTermCtx(c.P)
+			for _, b := range f.Blocks {
+				for _, in := range b.Instrs {
+					mu, ok := in.(*ssa.MapUpdate)
+					if !ok {
+						continue
+					}
+					k, v := tcm.Of(mu.Key), tcm.Of(mu.Value)
+					if k.Op == "extract" && k.Sym == "1" && v.Op == "extract" && v.Sym == "2" && sameVal(k.Args[0], v.Args[0]) && k.Args[0].Op == "next" {
+						r := k.Args[0].Args[0]
+						if r.Op == "range" && termIsRecvPath(r.Args[0], fld.path) {
+							verbatim = true
+						}
+					}
+				}
+			}
+			c.R.check(verbatim, rule, tname+".Copy/entries/"+strings.Join(fld.path, "."), shortFn(f), c.fpos(f), "every entry of the receiver's map is copied verbatim (copy[k] = v over one range of the map), not re-added through a filtering entry point", fmt.Sprintf("verbatim=%v", verbatim))
+		}
 		sort.Strings(badOrig)
 		c.R.check(fresh, rule, tname+".Copy/deep-fresh", shortFn(f), c.fpos(f), "on every path, everything reachable from each reference-typed field of the copy is freshly allocated (the proven-immutable mapping excepted)",
 			firstNonEmpty(strings.Join(uniqStrs(badOrig), "; "), "all reference fields fresh on "+fmt.Sprint(len(paths))+" path(s)"))
